@@ -143,13 +143,14 @@ type Partial struct {
 	ViolCount   map[string]int `json:"vc"`
 	Extra       map[string]any `json:"ex"`
 	NotExh      bool           `json:"ne"`
+	WallS       float64        `json:"wall_s"`
 }
 
 func (r *Run) Export() *Partial {
 	r.mu.Lock()
 	defer r.mu.Unlock()
 	p := &Partial{Evaluations: r.Evaluations.Load(), Transitions: r.Transitions.Load(), Traces: r.Traces.Load(),
-		Outcomes: r.outcomes, Samples: r.samples, Viol: r.viol, ViolCount: r.violCount, Extra: r.Extra, NotExh: !r.Exhaustive}
+		Outcomes: r.outcomes, Samples: r.samples, Viol: r.viol, ViolCount: r.violCount, Extra: r.Extra, NotExh: !r.Exhaustive, WallS: time.Since(r.Start).Seconds()}
 	for h := range r.states {
 		p.States = append(p.States, h)
 	}
@@ -160,6 +161,7 @@ func (r *Run) Export() *Partial {
 }
 
 func (r *Run) Merge(p *Partial) {
+	r.Start = r.Start.Add(-time.Duration(p.WallS * float64(time.Second))) // the other part's wall time counts
 	r.Evaluations.Add(p.Evaluations)
 	r.Transitions.Add(p.Transitions)
 	r.Traces.Add(p.Traces)
